@@ -1192,6 +1192,15 @@ class Trimesh(Geometry3D):
             else:
                 inverse = None
 
+            if inverse is not None and util.is_shape(self.faces, (-1, 3)):
+                # faces that reference a vertex which is being removed
+                # can't be kept or they will be re-indexed to another vertex
+                keep = np.zeros(len(self.vertices), dtype=bool)
+                keep[mask] = True
+                face_ok = keep[self.faces].all(axis=1)
+                if not face_ok.all():
+                    self.update_faces(face_ok)
+
         # re-index faces from inverse
         if inverse is not None and util.is_shape(self.faces, (-1, 3)):
             self.faces = inverse[self.faces.reshape(-1)].reshape((-1, 3))
@@ -1290,10 +1299,6 @@ class Trimesh(Geometry3D):
         if util.is_shape(self.vertices, (-1, 3)):
             # (len(self.vertices), ) bool, mask for vertices
             vertex_mask = np.isfinite(self.vertices).all(axis=1)
-            if not vertex_mask.all() and util.is_shape(self.faces, (-1, 3)):
-                # remove faces that reference a vertex we are about to
-                # remove otherwise they are re-indexed to another vertex
-                self.update_faces(vertex_mask[self.faces].all(axis=1))
             self.update_vertices(vertex_mask)
 
     def unique_faces(self) -> NDArray[np.bool_]:
